@@ -7,7 +7,7 @@
 //!   * no blocking raw call is issued while this thread holds any lock;
 //!   * the call returns with every member held exactly once in the requested mode - the unwinding
 //!     assertions prove that with <= N + budget obstructions the retry loop terminates within the bound;
-//!   * every transient hold was released in its own mode (vlock's C05_release_matches_hold).
+//!   * every transient hold was released in its own mode (vlock's U_release_matches_hold).
 use super::col::*;
 use super::util::*;
 use super::vlock::*;
